@@ -44,11 +44,12 @@ def gen_values(tape, nmax=4, label="vals", typ=None, allow_mixed=False):
     return typ, pool[:n]
 
 
-def gen_sweep(tape, max_n=40, kinds=None, allow_cases=True, max_args=4, allow_mixed=False):
+def gen_sweep(tape, max_n=40, kinds=None, allow_cases=True, max_args=4, allow_mixed=False,
+              arg_pool=None):
     kind = tape.weighted(kinds or KINDS, "kind")
     mode = tape.weighted([("combos", 3), ("cases", 1), ("mixed", 1)], "mode") \
         if allow_cases else "combos"
-    names = tape.perm(ARG_POOL, "argnames")
+    names = tape.perm(arg_pool or ARG_POOL, "argnames")
     nargs = tape.int_between(1, max_args, "nargs")
     names = names[:nargs]
     if mode == "combos":
@@ -57,7 +58,7 @@ def gen_sweep(tape, max_n=40, kinds=None, allow_cases=True, max_args=4, allow_mi
         case_args, combo_args = names[: min(2, nargs)], []
     else:
         if nargs < 2:
-            names = (names + [a for a in ARG_POOL if a not in names])[:2]
+            names = (names + [a for a in (arg_pool or ARG_POOL) if a not in names])[:2]
         k = 1 if len(names) < 3 else tape.int_between(1, 2, "ncaseargs")
         case_args, combo_args = names[:k], names[k:]
     combos = []
